@@ -157,6 +157,7 @@ func stateTransitionsRoot(p *Program, id string, root *ssa.Function) []Obligatio
 	}
 	a.Run(root, nil)
 	L, F, PC, C := enumIdx(stateAtom, "Leader"), enumIdx(stateAtom, "Follower"), enumIdx(stateAtom, "PreCandidate"), enumIdx(stateAtom, "Candidate")
+	SD := enumIdx(stateAtom, "Shutdown")
 	quorumRound := func(pt int, needReal bool) bool {
 		q := false
 		for _, i := range iQ {
@@ -211,7 +212,19 @@ func stateTransitionsRoot(p *Program, id string, root *ssa.Function) []Obligatio
 				return (s == C || s == PC) && sp.Val(pt, iSelf) == 1 && s != L
 			}
 			what = "term increment only during a candidacy of a voter"
-		case "Follower", "Shutdown":
+		case "Follower":
+			// Leaving Shutdown is start()'s business alone: it opens the log and starts the loops. A node that is being
+			// stopped (Stop() has set Shutdown and released the mutex to wait for the loops) must not be taken back to
+			// Follower by a handler or by the reply path of a request that was in flight: Stop() would then close the log
+			// under a node that claims to run, and a later Start() would do nothing (state != Shutdown).
+			if o.Extra["fn"] == "(*Raft).start" {
+				allowed = func(pt int) bool { return sp.Val(pt, iState) == SD }
+				what = "a node is started only from Shutdown"
+			} else {
+				allowed = func(pt int) bool { return sp.Val(pt, iState) != SD }
+				what = "only start() takes a node out of Shutdown: nothing else may set Follower on a node that is stopped or being stopped"
+			}
+		case "Shutdown":
 			out = append(out, Obligation{Rule: id, Construct: o.Key, Pos: o.Pos, Verdict: Discharged, Detail: "transition to " + target + " is always allowed", Facts: []string{"context: " + o.Chain}})
 			continue
 		default:
